@@ -196,12 +196,16 @@ def oracle_c01(tables, seed, tier, deep):
 # ------------------------------------------------------------------------------------------- C02
 
 def reassign(tree, roles, rng, c):
-    """class-preserving re-assignment of all sensitive literals"""
+    """class-preserving re-assignment of all sensitive literals; one case in three makes ALL ordinary strings equal
+    (so that anything that compares secrets with one another - de-duplication, sorting, interning - shows up)"""
     memo = {}
+    collapse = rng.chance(1, 3)
 
     def new_for(tok, role):
         if tok not in memo:
             k = rng.below(6)
+            if collapse and role == "S":
+                k = 5
             if role == "E":
                 memo[tok] = "other%d.%s@mail%d.example" % (rng.below(10 ** 6), "x" * rng.below(20), rng.below(99))
             elif role in ("D", "O", "X"):
@@ -746,7 +750,56 @@ def oracle_c13(tables, seed, tier, deep):
                   {"names": len(names), "extra": len(extra)}, [{"name": "user.address.zip", "pseudonym": H("e0.%d" % extra.index("user.address.zip"))}])
 
 
-ORACLES["C13"] = oracle_c13
+def oracle_c13_visible(tables, seed, tier, deep):
+    """pseudonyms as they become visible in --redactNamespaces / --redactFieldNames output: every name, incl. names that already look
+    like a pseudonym (start with '<replacement>_'), must come out as the independent pseudonym of the name"""
+    rng = SplitMix(seed ^ 0x1313)
+    viol = []
+    names = ["orders", "REDACTED_x", "REDACTED_", "REDACTED_ca978112ca1bbdca", "archive_2024", "X_y", "X_", "r.x_y_z", "a", "products", "shipments", "audit_log", "Ünï", "$cmd"]
+    for _ in range(60 if (tier == "thorough" or deep) else 20):
+        names.append("".join(rng.choice("abcdefXYZ019_-") for _ in range(1 + rng.below(10))))
+    repls = ["REDACTED", "X", "archive", "r.x_y"]
+    pairs = []
+    for i, nm in enumerate(names):
+        for rp in repls:
+            db = names[(i * 7 + 3) % len(names)]
+            line = Obj([("c", "COMMAND"), ("msg", "Slow query"), ("attr", Obj([("ns", db + "." + nm), ("command", Obj([("find", nm), ("filter", Obj([(nm, Num("1"))])), ("$db", db)])),
+                                                                            ("planSummary", "IXSCAN { %s: 1 }" % nm)]))])
+            pairs.append((Case(line), Cfg(repl=rp, w=True, eager=(db,)), nm, db, rp))
+    res = run_lines([(cs, c) for cs, c, _, _, _ in pairs])
+    for (cs, c, nm, db, rp), r in zip(pairs, res):
+        t = out_text(r)
+        if t is None:
+            continue
+        o = parse_json(t)
+        want = {("attr", "ns"): py_hash_name(rp, db + "." + nm), ("attr", "command", "find"): py_hash_name(rp, nm), ("attr", "command", "$db"): py_hash_name(rp, db)}
+        for pth, w in want.items():
+            got = get_path(o, pth)
+            if got != w:
+                viol.append({"site": "visible:" + "/".join(pth), "detail": "name %r (replacement %r): %s is %r, expected the pseudonym %r" % (nm if pth[-1] != "$db" else db, rp, "/".join(pth), got, w),
+                             "cfg": c.s(), "cli_flags": c.cli(), "input": cs.text, "output": t})
+        if "$" not in nm and "." not in nm and nm.strip() == nm and nm:
+            filt = get_path(o, ("attr", "command", "filter"))
+            if isinstance(filt, Obj) and filt.keys() != [py_hash_name(rp, nm)]:
+                viol.append({"site": "visible:filter-key", "detail": "field %r renamed to %r, expected %r" % (nm, filt.keys(), py_hash_name(rp, nm)), "cfg": c.s(), "cli_flags": c.cli(), "input": cs.text, "output": t})
+    return viol, len(pairs)
+
+
+def with_visible(fn):
+    def wrapped(tables, seed, tier, deep):
+        r = fn(tables, seed, tier, deep)
+        v, n = oracle_c13_visible(tables, seed, tier, deep)
+        if v:
+            r["violations"] = result(r["violations"] + v, 0, 0, "", {}, [])["violations"]
+            r["stats"]["summary"]["violating_sites"] = len(r["violations"])
+        r["stats"]["evaluations"] += n
+        r["stats"]["summary"]["evaluations"] = r["stats"]["evaluations"]
+        r["stats"]["rule"] += "; plus pseudonyms as visible in -w / -f output for names that already look like pseudonyms, names whose digest starts with 0, under four replacement texts"
+        return r
+    return wrapped
+
+
+ORACLES["C13"] = with_visible(oracle_c13)
 
 
 # ------------------------------------------------------------------------------------------- C06 / C08 (streams)
@@ -2003,6 +2056,23 @@ def oracle_c16(tables, seed, tier, deep):
                         viol.append(dict(rep, site="atlas:extra-output", detail="unexpected output files %r" % extra))
                     if r["tmp_left"]:
                         viol.append(dict(rep, site="atlas:tmp-left", detail="temporary files left: %r" % sorted(r["tmp_left"])))
+        # a failing host: the run must fail, and whatever <out>.<i> exists must still be host i's redaction (no shifting)
+        for k in ([0, 1, 2] if big else [1]):
+            hs = ["h0.example.net:27017", "h1.example.net:27017", "h2.example.net:27017"]
+            plains = [atlas_payload(rng, i, 3 + i) for i in range(3)]
+            sc = fakeatlas.Scenario(hs, [fakeatlas.gz(p) for p in plains], faults={k: ("http", 500)})
+            r = run_atlas(sc, work)
+            n += 1
+            rep = {"cfg": "-", "cli_flags": r["args"][1:], "input": "3 hosts, host %d answers 500" % k}
+            if r["rc"] == 0:
+                viol.append(dict(rep, site="atlas:failed-host-exit0", detail="the download of host %d failed but the run exits 0" % k))
+            base = os.path.basename(r["out"])
+            for i, plain in enumerate(plains):
+                got = r["outputs"].get("%s.%d" % (base, i))
+                if got is not None:
+                    rc2, exp = expected_redaction(plain, [], work)
+                    if got != exp:
+                        viol.append(dict(rep, site="atlas:output-shifted", detail="%s.%d exists after a failed download of host %d and is not the redaction of host %d's log" % (base, i, k, i)))
     finally:
         shutil.rmtree(work, ignore_errors=True)
     return result(viol, n, n, "whole program against an in-process fake Atlas endpoint (digest challenge): clusters with 1..5 hosts with / without ports, payloads empty / small / multi-member gzip, flag sets, given and default window, key pair by flag or environment; request log (order, paths, query, valid digest, unauthenticated twins), every <out>.<i> byte-compared with the tool's own redaction of the same bytes given as a file",
